@@ -309,6 +309,11 @@ func init() {
 	intrinsics["(*sync.RWMutex).RLock"] = inRWRLock
 	intrinsics["(*sync.RWMutex).RUnlock"] = inRWRUnlock
 	intrinsics["(*sync.Mutex).TryLock"] = inMutexTryLock
+	intrinsics["internal/bytealg.MakeNoZero"] = inMakeNoZero
+	intrinsics["internal/bytealg.IndexByte"] = inIndexByte
+	intrinsics["internal/bytealg.IndexByteString"] = inIndexByteString
+	intrinsics["internal/bytealg.Count"] = inCountByte
+	intrinsics["internal/bytealg.Compare"] = inBytesCompare
 }
 
 func inIte(r *Run, fr *frame, a []Value) Value {
@@ -1337,4 +1342,92 @@ func inMutexTryLock(r *Run, fr *frame, a []Value) Value {
 		}
 	})
 	return r.ctx.Bool(got)
+}
+
+// ---------- internal/bytealg (assembly in the real runtime) ----------
+
+func inMakeNoZero(r *Run, fr *frame, a []Value) Value {
+	n := a[0].(*Term)
+	r.obligation("makeslice-len", r.ctx.Sle(r.ctx.Const(64, 0), n), "makeslice: len out of range")
+	return r.makeSlice(types.Typ[types.Byte], n, n)
+}
+
+// IndexByte(b, c): first index of c in b, or -1; the length must be concrete, the contents may be symbolic (forks per position).
+func inIndexByte(r *Run, fr *frame, a []Value) Value {
+	c := r.ctx
+	s := a[0].(SliceVal)
+	if s.slot == nil {
+		return c.Const(64, ^uint64(0))
+	}
+	n := r.concreteInt(r.sliceLen(s), "bytealg.IndexByte length")
+	for i := 0; i < n; i++ {
+		eq := c.Eq(r.elemAt(s, c.Const(64, uint64(i))).(*Term), a[1].(*Term))
+		if eq.IsTrue() || (!eq.IsFalse() && r.branch(eq)) {
+			return c.Const(64, uint64(i))
+		}
+	}
+	return c.Const(64, ^uint64(0))
+}
+
+func inIndexByteString(r *Run, fr *frame, a []Value) Value {
+	c := r.ctx
+	s := a[0].(Str)
+	if s.sym {
+		r.unsupported("bytealg.IndexByteString on a symbolic string")
+	}
+	ch := a[1].(*Term)
+	for i := 0; i < len(s.s); i++ {
+		eq := c.Eq(c.Const(8, uint64(s.s[i])), ch)
+		if eq.IsTrue() || (!eq.IsFalse() && r.branch(eq)) {
+			return c.Const(64, uint64(i))
+		}
+	}
+	return c.Const(64, ^uint64(0))
+}
+
+func inCountByte(r *Run, fr *frame, a []Value) Value {
+	c := r.ctx
+	s := a[0].(SliceVal)
+	cnt := c.Const(64, 0)
+	if s.slot == nil {
+		return cnt
+	}
+	n := r.concreteInt(r.sliceLen(s), "bytealg.Count length")
+	for i := 0; i < n; i++ {
+		eq := c.Eq(r.elemAt(s, c.Const(64, uint64(i))).(*Term), a[1].(*Term))
+		cnt = c.Add(cnt, c.Ite(eq, c.Const(64, 1), c.Const(64, 0)))
+	}
+	return cnt
+}
+
+// Compare(a, b): -1/0/+1 lexicographically; concrete lengths.
+func inBytesCompare(r *Run, fr *frame, a []Value) Value {
+	c := r.ctx
+	x, y := a[0].(SliceVal), a[1].(SliceVal)
+	lx, ly := 0, 0
+	if x.slot != nil {
+		lx = r.concreteInt(r.sliceLen(x), "bytealg.Compare length")
+	}
+	if y.slot != nil {
+		ly = r.concreteInt(r.sliceLen(y), "bytealg.Compare length")
+	}
+	for i := 0; i < lx && i < ly; i++ {
+		k := c.Const(64, uint64(i))
+		ex, ey := r.elemAt(x, k).(*Term), r.elemAt(y, k).(*Term)
+		lt := c.Ult(ex, ey)
+		if lt.IsTrue() || (!lt.IsFalse() && r.branch(lt)) {
+			return c.Const(64, ^uint64(0))
+		}
+		gt := c.Ult(ey, ex)
+		if gt.IsTrue() || (!gt.IsFalse() && r.branch(gt)) {
+			return c.Const(64, 1)
+		}
+	}
+	switch {
+	case lx < ly:
+		return c.Const(64, ^uint64(0))
+	case lx > ly:
+		return c.Const(64, 1)
+	}
+	return c.Const(64, 0)
 }
